@@ -67,6 +67,8 @@ def jobs(tier, seed):
         for o in (["cust"], ["cust", "update"], ["ecc", "cust"], ["update", "ecc", "cust"]):
             add(o, sorted(o), custkey=True)
             add(o, ["cust"], custkey=True, n=16)
+    for sel in ((0, 2) if tier == "quick" else (0, 1, 2, 3)):
+        J.append(dict(name="history:two-files-same-selector:sel%d" % sel, kind="twofiles", order=["ecc"], decs=["ecc"], sel=sel, custkey=False, n=5, timeout=900, cost=150))
     J.append(dict(name="rt:twin", kind="rt", order=["cust"], decs=["cust"], sel=0, custkey=False, n=17, twin=True, expect="violated", timeout=300))
     return J
 
@@ -83,6 +85,33 @@ def run_job(job):
     from bec2format import bf3file as bf, bec2file as b2
 
     order, decs, sel, twin = job["order"], job["decs"], job["sel"], job.get("twin")
+
+    if job["kind"] == "twofiles":
+        def h2():
+            # results must not depend on earlier writes in the same process (no state kept on classes)
+            keys = [sym.sym_bytes("keyA", 16), sym.sym_bytes("keyB", 16)]
+            recips = [UFPrivate.generate(), UFPrivate.generate()]
+            confs = [sym.sym_bytes("confA", 5), sym.sym_bytes("confB", 5)]
+            runner.track(dict(keyA=keys[0], keyB=keys[1]))
+            carriers = []
+            for i in range(2):
+                f = bf.Bf3File({}, [bf.Bf3Component({0xC3: b"\x03", 0xC2: b"\x02"}, confs[i], 5, encrypt_by_session_key=True)])
+                c = stubs.Carrier()
+                b2.Bec2File(f, [b2.InitEccAuthBlock(sel)], keys[i]).write_file(c, [b2.EccEncryptor(sel, recips[i].public_key)])
+                carriers.append(c)
+            ok = True
+            for i in (1, 0):
+                r = b2.Bec2File.read_file(carriers[i], [b2.EccDecryptor(sel, recips[i])])
+                ok = ok and r.session_key == keys[i] and r.bf3file.components[0].blob[:5] == confs[i]
+            if not ok:
+                runner.record_witness(keyA=keys[0], keyB=keys[1])
+            return ok
+
+        res = runner.run(h2, job["timeout"] - 60, job["timeout"] - 60)
+        res["symbolic_dims"] = 42
+        if res["verdict"] == "violated":
+            res["signature"] = "C02:second-file-depends-on-first"
+        return res
 
     def h():
         key = sym.sym_bytes("key", 16)
@@ -244,6 +273,25 @@ def replay(job):
 
     if job.get("twin"):
         return dict(reproduced=True, signature="twin")
+    if job.get("kind") == "twofiles":
+        from bec2format import bf3file as bf, bec2file as b2
+
+        sel = job["sel"]
+        recips = [generate_private_ecc_key(), generate_private_ecc_key()]
+        texts = []
+        for i in range(2):
+            f = bf.Bf3File({}, [bf.Bf3Component({0xC3: b"\x03", 0xC2: b"\x02"}, bytes([i + 1]) * 5, 5, encrypt_by_session_key=True)])
+            s_ = io.StringIO()
+            b2.Bec2File(f, [b2.InitEccAuthBlock(sel)], bytes([0x40 + i]) * 16).write_file(s_, [b2.EccEncryptor(sel, recips[i].public_key)])
+            texts.append(s_.getvalue())
+        for i in (1, 0):
+            try:
+                r = b2.Bec2File.read_file(io.StringIO(texts[i]), [b2.EccDecryptor(sel, recips[i])])
+                if r.session_key != bytes([0x40 + i]) * 16:
+                    return dict(reproduced=True, signature="C02:second-file-depends-on-first", detail="file %d read with key %s" % (i, r.session_key.hex()))
+            except Exception as e:
+                return dict(reproduced=True, signature="C02:second-file-depends-on-first", detail="file %d (written after another file with the same selector %d to a different recipient) cannot be read by its recipient: %s: %s" % (i, sel, type(e).__name__, e))
+        return dict(reproduced=False)
     w = _unhex(job.get("witness") or {})
     rnd = random.Random(11)
     recipient = generate_private_ecc_key()
